@@ -30,8 +30,7 @@ var Known = struct {
 	EvalVarFuncName:         true,
 	EvalVarShadowsOuter:     true,
 	EvalVarOverPatternParam: true,
-	ThisInEvalBeforeSuper:   true,
-	// the others were fixed in /repo (386f001, 5d89e51, 510ab8b, f4667a3, 68e2c4f, computed-key): traps off
+	// the others were fixed in /repo (386f001, 5d89e51, 510ab8b, f4667a3, 68e2c4f, computed-key, 8ba346d): traps off
 }
 
 func (it *Interp) trap(on bool, id string) {
